@@ -157,8 +157,9 @@ impl<'a> IndexSelector<'a> {
         let index_name = self.arena.alloc_str(matching_index.name());
         let table_def_alloc = self.arena.alloc(table_def.clone());
 
-        let covered_columns = vec![col_name.to_string()];
-        let residual = compute_residual_filter(self.arena, filter.predicate, &covered_columns);
+        // Only the equality that feeds the index probe is answered by the index scan; every other
+        // conjunct - including other comparisons on the same column - must stay in the residual filter.
+        let residual = compute_residual_excluding_probe(self.arena, filter.predicate, literal_expr);
 
         let index_scan = self.arena.alloc(PhysicalOperator::SecondaryIndexScan(
             PhysicalSecondaryIndexScan {
@@ -344,6 +345,42 @@ pub fn extract_equality_predicate<'a>(expr: &'a Expr<'a>) -> Option<(&'a str, &'
                 .or_else(|| extract_equality_predicate(right))
         }
         _ => None,
+    }
+}
+
+/// Residual filter for an index equality probe: the predicate without the single conjunct
+/// `col = literal` / `literal = col` whose literal is `probe_literal` (the one chosen by
+/// `extract_equality_predicate`). All other conjuncts are kept.
+pub fn compute_residual_excluding_probe<'a>(
+    arena: &'a Bump,
+    predicate: &'a Expr<'a>,
+    probe_literal: &'a Expr<'a>,
+) -> Option<&'a Expr<'a>> {
+    match predicate {
+        Expr::BinaryOp {
+            left,
+            op: BinaryOperator::And,
+            right,
+        } => {
+            let l = compute_residual_excluding_probe(arena, left, probe_literal);
+            let r = compute_residual_excluding_probe(arena, right, probe_literal);
+            match (l, r) {
+                (Some(l), Some(r)) => Some(arena.alloc(Expr::BinaryOp {
+                    left: l,
+                    op: BinaryOperator::And,
+                    right: r,
+                })),
+                (Some(l), None) => Some(l),
+                (None, Some(r)) => Some(r),
+                (None, None) => None,
+            }
+        }
+        Expr::BinaryOp {
+            left,
+            op: BinaryOperator::Eq,
+            right,
+        } if std::ptr::eq(*left, probe_literal) || std::ptr::eq(*right, probe_literal) => None,
+        _ => Some(predicate),
     }
 }
 
